@@ -93,3 +93,69 @@ Qed.
 Lemma write_reply_recreated_refuted : exists data evs out,
   write_reply WriteRecreatedAfterEveryCommand data data evs = (out, RDone) /\ out <> data.
 Proof. exists [1; 2; 3; 4]%N, [Take 2; Cmd CChangeDecoding; Take 9], [1; 2; 1; 2; 3; 4]%N. split; [reflexivity|discriminate]. Qed.
+
+(* ---- the client's request write, bounded by the request timeout (F14) ---- *)
+From Rodbus Require Import Gen.ClientFatal.
+
+Lemma client_write_prefix : forall evs shape rem out r, client_write shape rem evs = (out, r) ->
+  exists rest, rem = out ++ rest /\ (r = CDone -> rest = []).
+Proof.
+  induction evs as [|e evs IH]; intros shape rem out r; destruct rem as [|x rem']; cbn [client_write]; intros H.
+  - inversion H; subst. exists []; split; [reflexivity|auto].
+  - inversion H; subst. exists (x :: rem'). split; [reflexivity|discriminate].
+  - inversion H; subst. exists []; split; [reflexivity|auto].
+  - destruct e as [k|].
+    + destruct (client_write shape (skipn k (x :: rem')) evs) as [o r'] eqn:E. inversion H; subst.
+      destruct (IH _ _ _ _ E) as (rest & Hr & Hd). exists rest. split; [|exact Hd].
+      rewrite <- app_assoc, <- Hr. symmetry. exact (firstn_skipn k (x :: rem')).
+    + destruct shape.
+      * exact (IH _ _ _ _ H).
+      * inversion H; subst. exists (x :: rem'). split; [reflexivity|discriminate].
+Qed.
+
+(* what one request write hands to the transport is a prefix of the one frame; the frame itself when it completes *)
+Theorem client_request_write_prefix : forall data evs out r, client_request_write data evs = (out, r) ->
+  exists rest, data = out ++ rest /\ (r = CDone -> out = data).
+Proof.
+  intros data evs out r H. destruct (client_write_prefix _ _ _ _ _ H) as (rest & Hd & Hdone). exists rest. split; [exact Hd|].
+  intros Hr. rewrite (Hdone Hr) in Hd. now rewrite app_nil_r in Hd.
+Qed.
+
+(* with the bound, a transport that stops taking bytes cannot hold the client for ever: once the timeout elapses the
+   call has ended (done or timed out), never still parked *)
+Theorem client_write_bounded : forall evs rem out r, client_write ClientWriteBoundedByRequestTimeout rem evs = (out, r) ->
+  In CTimeout evs -> r <> CParked.
+Proof.
+  induction evs as [|e evs IH]; intros rem out r H Hin; [destruct Hin|]. destruct rem as [|x rem']; cbn [client_write] in H.
+  - inversion H; subst. discriminate.
+  - destruct e as [k|].
+    + destruct (client_write ClientWriteBoundedByRequestTimeout (skipn k (x :: rem')) evs) as [o r'] eqn:E. inversion H; subst.
+      destruct Hin as [Hd|Hin]; [discriminate|]. exact (IH _ _ _ E Hin).
+    + inversion H; subst. discriminate.
+Qed.
+Theorem client_request_write_bounded : forall data evs out r, client_request_write data evs = (out, r) -> In CTimeout evs -> r <> CParked.
+Proof. intros data evs out r H Hin. unfold client_request_write in H. change client_write_shape with ClientWriteBoundedByRequestTimeout in H. exact (client_write_bounded evs data out r H Hin). Qed.
+
+(* a whole connection: complete frames, then at most one cut frame - and if a frame was cut by the timeout the session is
+   over: NO further frame is emitted on that connection (an I/O error ends the client session: Gen/ClientFatal) *)
+Theorem client_conn_emit_shape : forall reqs out alive, client_conn_emit io_error_ends_session reqs = (out, alive) ->
+  exists k cut rest, out = concat (map fst (firstn k reqs)) ++ cut /\
+                     (cut = [] \/ fst (nth k reqs ([], [])) = cut ++ rest) /\
+                     (alive = false -> exists evs, In CTimeout evs /\ snd (nth k reqs ([], [])) = evs).
+Proof.
+  change io_error_ends_session with true.
+  induction reqs as [|[data evs] reqs IH]; intros out alive H; cbn [client_conn_emit] in H.
+  - inversion H; subst. exists 0, [], []. cbn. repeat split; auto. discriminate.
+  - destruct (client_request_write data evs) as [o r] eqn:E. destruct (client_request_write_prefix _ _ _ _ E) as (rest & Hd & Hdone).
+    destruct r.
+    + destruct (client_conn_emit true reqs) as [o' a'] eqn:E'. inversion H; subst.
+      destruct (IH _ _ eq_refl) as (k & cut & rest' & Ho & Hc & Ha). exists (S k), cut, rest'.
+      cbn [firstn map concat fst nth]. split; [rewrite <- (Hdone eq_refl), Ho, app_assoc; reflexivity|]. split; assumption.
+    + injection H as <- <-. exists 0, o, rest. cbn [firstn map concat app nth fst]. split; [reflexivity|]. split; [right; exact Hd|discriminate].
+    + injection H as <- <-. exists 0, o, rest. cbn [firstn map concat app nth fst snd]. split; [reflexivity|]. split; [right; exact Hd|].
+      intros _. exists evs. split; [|reflexivity].
+      (* the call timed out, so a timeout event is in its script *)
+      clear -E. unfold client_request_write in E. revert data o E. induction evs as [|e evs IHe]; intros data o E; destruct data as [|x d]; cbn [client_write] in E; try discriminate.
+      destruct e as [k|]; [|left; reflexivity].
+      destruct (client_write client_write_shape (skipn k (x :: d)) evs) as [o2 r2] eqn:E2. inversion E; subst. right. exact (IHe _ _ E2).
+Qed.
